@@ -108,14 +108,15 @@ CHECKS.update({
 
 CHECKS.update({
  'C05': dict(
-   text=('Theorems about the literal models of the two producer goroutines. Lexer (lex.go): for EVERY input and every classification of runes the state machine ends within 2*|input|+4 state functions and sends ordinary tokens followed '
-         'by exactly one terminal token (EOF or error), so Tokens() receives every send and nothing stays blocked (measure argument over the state machine, induction on the inner loops). FOR expander (forexpand.go): for EVERY token stream '
-         'and symbol table, when a pass ends the goroutine has sent at most one terminal token, as the last send, is not left blocked, and Tokens() returns a stream with exactly one terminal token (invariant over the 12 state functions); on every closed stream a pass ends within its 4*|tokens|+8 state functions provided FOR-count evaluation does not exhaust its own fuel (measure argument). '
-         'PARTIAL: that the symbol scanner, the parser and the EQU substitution loops never exhaust their linear fuel is not proved (C05_full_statement); the error-xor-result shape of CompileWarrior\'s two return values, '
-         'wall-clock, memory and the goroutine count are runtime facts outside the model. Every run feeds generated inputs (valid, mutated, token soup, invalid UTF-8, NUL, ^Z, CR/LF variants, unterminated lines, EQU cycles with ;assert, half-failing FOR blocks) '
+   text=('Theorem about the literal model of CompileWarrior: for EVERY input text and EVERY configuration assembling ends within the fuel of every loop of the model (C05_assembling_terminates: compile_warrior never answers out-of-fuel). '
+         'Pieces, each a theorem for all inputs: the lexer goroutine (lex.go) ends within 2n+4 state functions for every classification of runes and sends ordinary tokens followed by exactly one terminal token, so Tokens() receives every send and nothing stays blocked; '
+         'the symbol scanner ends within 3n+6 and the parser within 4n+10 state functions on every closed stream (potential arguments over the 4 and 13 state functions); a pass of the FOR expander (forexpand.go) ends within 4n+8 state functions, sends at most one terminal token, as its last send, and is never left blocked; '
+         'the pass driver ends (at most 1000 passes); the EQU graph walk is total, and once it finds no cycle the memoised expansion of EQU values ends (the walk bounds its recursion) and the substitute-until-nothing-changes loop of expandExpression ends within |symbols|+3 passes (every token needs at most |graph|+1 passes; the resolved table is free of EQU names). '
+         'NOT theorems: wall-clock time, memory and the goroutine count are facts about the Go runtime - measured on every run; textual EQU substitution is exponential in nesting depth in the size of the substituted text (the bound counts passes). '
+         'Every run feeds generated inputs (valid, mutated, token soup, invalid UTF-8, NUL, ^Z, CR/LF variants, unterminated lines, EQU cycles with ;assert, half-failing FOR blocks, lexer error tokens on every line of FOR programs) '
          'to gmars in worker processes under a watchdog, compares result and token streams with the extracted model, and checks err xor result and the goroutine count before/after.'),
-   design_ref='DESIGN.md 5 C05', note=NOTE_STD + ' Fuel adequacy beyond the lexer, and all runtime behaviour (time, memory, goroutine profile), are covered by the per-run harness only.',
-   technique='Coq proof (measure argument for the lexer state machine; send-protocol invariant for the expander state machine) + per-run correspondence with watchdog, err-xor-result and goroutine-leak monitors'),
+   design_ref='DESIGN.md 0.2 and 5 C05', note=NOTE_STD + ' Runtime behaviour (time, memory, goroutine profile) is covered by the per-run harness only.',
+   technique='Coq proof (potential arguments over the lexer, scanner, expander and parser state machines; send-protocol invariant; cycle-check walk bounds EQU expansion and substitution passes) + per-run correspondence with watchdog, err-xor-result and goroutine-leak monitors'),
 })
 
 CHECKS.update({
